@@ -1,11 +1,13 @@
 # claims: one claim(...) per property that has a check.  Executed by tools/mkmanifest.py.
 claim('C16', 'model_checking',
-      'TLA+ spec of the primitive decoders (spec/Prim.tla, Bytes.tla) model-checked by TLC; every reachable input state '
-      'emitted by TLC is replayed into the real decoders (value, bytes consumed, error class)',
+      'TLA+ spec of the primitive decoders (spec/Prim.tla, Bytes.tla) and of the combinator language they are composed with (spec/Combinators.tla: '
+      'cursor/context machine Parse over Struct/Embed/Rename/Array/PrefixedArray/RepeatUntilExcluding/Switch/If/Enum/Value/Padding/BitStruct) model-checked by TLC; '
+      'every reachable input state / (expression, input) pair emitted by TLC is replayed into the real decoders and combinators (value, bytes consumed, error class)',
       'TLC exhaustively enumerates the input writer (all 1- and 2-byte LEB128 prefixes, third byte from class alphabets, '
       'fixed-width/int24/string/initial-length/array letters) and checks operational = denotational decoding, independence '
       'from trailing bytes, truncation and round trips on the specification; each state is then one conformance case for '
-      'struct_parse on the real primitives. Small-scope exhaustive plus seeded simulation to 20-byte encodings.',
+      'struct_parse on the real primitives. Small-scope exhaustive plus seeded simulation to 20-byte encodings. For compositions TLC checks extension-independence, '
+      'truncation of every proper prefix, consumed = declarative size (static and value-directed), Embed flattening and Rename identity over a catalogue of ~230 expressions.',
       'trusts TLC, the 5-line denote() from digit/group strings to Python ints, and the transcription of DWARF 7.4/7.6 in Bytes.tla; '
       'initial lengths 0xffffff00..0xffffffef are reserved in DWARF 2-4 and valid in DWARF 5: decoders configured for versions 2-4 must reject them, for version 5 both answers are accepted',
       'DESIGN.md 5/C16')
